@@ -417,3 +417,38 @@ func (c *Ctx) callsFunc(info *types.Info, e ast.Node, g *core.Func) bool {
 func isErrorType(t types.Type) bool {
 	return t != nil && types.Identical(t, types.Universe.Lookup("error").Type())
 }
+
+// rootHandler returns what runs when the goroutine root t exits: the bodies
+// of the deferred calls at the head of t (closures, or functions/methods of
+// the repository deferred directly), concatenated in execution order (last
+// deferred first), wrapped in a synthetic function literal.  nil when the
+// root's first statement is not a defer.
+func (c *Ctx) rootHandler(t *core.Func) *ast.FuncLit {
+	var bodies [][]ast.Stmt
+	info := t.Info()
+	for _, st := range t.Body.List {
+		ds, ok := st.(*ast.DeferStmt)
+		if !ok {
+			break
+		}
+		if fl, ok := ast.Unparen(ds.Call.Fun).(*ast.FuncLit); ok {
+			bodies = append(bodies, fl.Body.List)
+			continue
+		}
+		if fo := core.StaticCallee(info, ds.Call); fo != nil {
+			if g := c.P.FuncOf(fo); g != nil && g.Body != nil {
+				bodies = append(bodies, g.Body.List)
+				continue
+			}
+		}
+		break
+	}
+	if len(bodies) == 0 {
+		return nil
+	}
+	var all []ast.Stmt
+	for i := len(bodies) - 1; i >= 0; i-- {
+		all = append(all, bodies[i]...)
+	}
+	return &ast.FuncLit{Type: &ast.FuncType{}, Body: &ast.BlockStmt{List: all}}
+}
